@@ -178,6 +178,17 @@ def observe(mid, what, seed, consumer_edits=False):
                 mf.time = orig
         if what == 'repr':
             return repr(mid)
+        if what == 'print_tracks':
+            import contextlib
+            out = io.StringIO()
+            with contextlib.redirect_stdout(out):
+                mid.print_tracks(meta_only=seed % 2 == 1)
+            return out.getvalue()
+        if what == 'with-iter':
+            # "with MidiFile(...) as mid": entering and leaving the block is no edit
+            with mid as inner:
+                res = freeze_list(list(inner)) if inner.type != 2 else ('type2', len(inner.tracks))
+            return res, inner is mid
     except HarnessAbort:
         raise
     except Exception as exc:
@@ -478,7 +489,8 @@ def do_edit(rng, mid):
 
 
 BLOCKED = []       # set once a save in another thread was seen to hang: not tried again in this process
-OBS = ('iter', 'length', 'merged', 'save', 'play', 'repr', 'save-to-path', 'save-in-another-thread', 'names', 'names')
+OBS = ('iter', 'length', 'merged', 'save', 'play', 'repr', 'save-to-path', 'save-in-another-thread', 'names', 'names', 'print_tracks',
+       'with-iter')
 
 
 def history(ctx, seed, maxsteps):
